@@ -29,8 +29,17 @@
      readable_is_appended, synced_survive : not proved as quantified theorems (they need (a) and (b)).
          synced_survive is FALSE of the current code when an empty item follows an item larger than
          maxFileSize: C24_synced_survive_refuted (open known finding).
+     cross-table ("one contiguous range shared by all tables"): Freezer.repair is modelled in
+         Storage/Freezer.v on top of the table model.  C24_freezer_repair_aligned (FULL for the repair
+         step): for ANY list of per-table states with tail <= head, if repair succeeds every table is at
+         exactly [Tail, Ancients), Tail <= Ancients, and Ancients is the minimum head of the non-empty
+         tables (within every non-empty table's recovered content).  C24_freezer_repair_keeps_synced: if
+         every table recovered at least [h, s), the shared range still contains [h, s).  Not proved: that
+         repair SUCCEEDS (needs the data-file facts of each table) and the composition with the per-table
+         crash theorems into one statement over freezer histories; both are covered by the freezer-level
+         correspondence (kind 9) and its Go oracle.
      zero_tail_detected  : C24_zero_tail_detected, FULL, with the undetectable case as its exact exception. *)
-From GV Require Import Lib.Tactics Storage.FreezerTable Storage.FreezerTableProofs Storage.FreezerTableInv.
+From GV Require Import Lib.Tactics Storage.FreezerTable Storage.FreezerTableProofs Storage.FreezerTableInv Storage.Freezer Storage.FreezerProofs.
 Local Open Scope N_scope.
 
 (* checkIndex truncates a zero-filled tail exactly at the first zero entry, unless the last genuine
@@ -103,6 +112,24 @@ Theorem C24_repair_loop_head_only_partial : forall fuel t last offsets csize f,
     (eoff last < csize -> t_data t' = dset (efile last) (f_trunc f (eoff last)) (t_data t)).
 Proof. exact repair_loop_head_only. Qed.
 Print Assumptions C24_repair_loop_head_only_partial.
+
+(* Freezer.repair: all tables end at one range, inside every non-empty table's recovered content *)
+Theorem C24_freezer_repair_aligned : forall ts f,
+  Forall (fun t => t_hidden t <= t_items t) ts -> fz_repair ts = Ok f ->
+  length (fz_tables f) = length ts /\
+  Forall (fun t' => t_items t' = fz_head f /\ t_hidden t' = fz_tail f) (fz_tables f) /\
+  fz_tail f <= fz_head f /\
+  fz_head f = min_head ts /\
+  (forall t, In t ts -> t_items t <> 0 -> fz_head f <= t_items t).
+Proof. exact fz_repair_aligned. Qed.
+Print Assumptions C24_freezer_repair_aligned.
+
+(* nothing that every table recovered is lost by the cross-table alignment *)
+Theorem C24_freezer_repair_keeps_synced : forall ts f s h,
+  ts <> [] -> (forall t, In t ts -> s <= t_items t /\ t_hidden t <= h) -> h < s ->
+  fz_repair ts = Ok f -> s <= fz_head f /\ fz_tail f <= h.
+Proof. exact fz_repair_keeps_synced. Qed.
+Print Assumptions C24_freezer_repair_keeps_synced.
 
 (* "reopen = Ok for every history and cut" is false of the code before the clamp in repair():
    files at their durable lengths + the current (never fsync'ed) metadata record *)
